@@ -371,6 +371,17 @@ func Concretise(env Env, rng *rand.Rand, originAddr string, thorough bool) *Scen
 		default:
 			res.Framing = "cl"
 		}
+		if m == "HEAD" {
+			if okind == "trunc" {
+				// the answer to a HEAD has no body to break off in: make it a plain GET
+				m, e.Req.Method = "GET", "GET"
+			} else {
+				res.Framing = "none"
+				if res.Status == 204 || res.Status == 304 {
+					res.Status = 200
+				}
+			}
+		}
 		switch okind {
 		case "okclose":
 			res.Close = true
@@ -383,11 +394,6 @@ func Concretise(env Env, rng *rand.Rand, originAddr string, thorough bool) *Scen
 				res.Fault = "garbage"
 			} else {
 				res.Fault = "cut"
-				if res.Framing == "none" {
-					res.Framing = "cl"
-					res.Status = 200
-					res.Body = randBody(rng, 10)
-				}
 				raw := res.Bytes(id)
 				head := strings.Index(string(raw), "\r\n\r\n") + 4
 				res.CutAt = rng.Intn(head) // 0 .. head-1: before the head is complete
@@ -407,17 +413,6 @@ func Concretise(env Env, rng *rand.Rand, originAddr string, thorough bool) *Scen
 			res.CutAt = head + rng.Intn(len(raw)-head-1) // at least the head, never the whole body
 			if res.Framing == "chunked" && res.CutAt > len(raw)-5 {
 				res.CutAt = len(raw) - 5 // before the terminating chunk
-			}
-		}
-		if m == "HEAD" {
-			res.Framing = "none"
-			if res.Status == 204 || res.Status == 304 {
-				res.Status = 200
-			}
-			if res.Fault == "cut" && okind == "trunc" {
-				// a HEAD response has no body to break off in: make it a plain GET instead
-				e.Req.Method = "GET"
-				res.Framing = "cl"
 			}
 		}
 		e.Res = res
@@ -575,9 +570,9 @@ func (sc *Scenario) Describe() map[string]interface{} {
 		if e.Refuse {
 			f = "refused"
 		}
-		ex = append(ex, fmt.Sprintf("#%d %s %s %s body=%d/%s close=%v mods=%s/%s -> %d %s body=%d close=%v fault=%s@%d",
+		ex = append(ex, fmt.Sprintf("#%d %s %s %s body=%d/%s close=%v mods=%s/%s -> %d %s body=%d close=%v fault=%s@%d/%d",
 			e.Req.ID, e.Req.Method, e.Req.Target, e.Req.Version, len(e.Req.Body), e.Req.Framing, e.Req.Close, e.RqB, e.RsB,
-			e.Res.Status, e.Res.Framing, len(e.Res.Body), e.Res.Close, f, e.Res.CutAt))
+			e.Res.Status, e.Res.Framing, len(e.Res.Body), e.Res.Close, f, e.Res.CutAt, len(e.Res.Bytes(e.Req.ID))))
 	}
 	var sch []string
 	for _, s := range sc.Sched {
